@@ -140,7 +140,10 @@ class ExtendedTestResult(Python27TestResult):
         self._tags = TagContext(self._tags)
 
     def stopTest(self, test):
-        self._tags = self._tags.parent
+        # unittest in Python 3.12.1 reports a skipped test without startTest():
+        # only leave a test's tag context, never the run-level one.
+        if self._tags is not None and self._tags.parent is not None:
+            self._tags = self._tags.parent
         super().stopTest(test)
 
     @property
